@@ -542,6 +542,49 @@ pub fn check_file_subsets(dir: &Path, case: &Value) -> (Vec<Violation>, u64) {
     (out, evals)
 }
 
+/// (i): one definition with a dependency chain of more than a thousand variables (work lists and
+/// search budgets inside the passes meet their limits in hash order first): same findings
+/// under a few seeds.
+pub fn check_long_chain(seeds: u64, dir: &Path, case: &Value) -> (Vec<Violation>, u64) {
+    let _ = std::fs::create_dir_all(dir);
+    let mut src = String::from("pragma circom 2.0.0;\ntemplate Chain() {\n    signal input in[5];\n    signal output out;\n    signal output short;\n");
+    for i in 0..4 {
+        src.push_str(&format!("    var a{i} = in[{i}];\n"));
+    }
+    src.push_str("    var c0 = a0 + a1 + a2 + a3 + in[4];\n");
+    for i in 1..=1100 {
+        src.push_str(&format!("    var c{i} = c{} + {};\n", i - 1, i % 3 + 1));
+    }
+    src.push_str("    out <== c1100;\n    short <== a0 + a1;\n}\n");
+    std::fs::write(dir.join("chain.circom"), &src).expect("write");
+    let mut out = Vec::new();
+    let mut reference: Option<BTreeMap<String, usize>> = None;
+    let mut runs = 0;
+    for seed in 0..seeds {
+        let r = bin(dir, &["chain.circom".to_string()], seed);
+        runs += 1;
+        let m = diag_multiset(&r);
+        match &reference {
+            None => reference = Some(m),
+            Some(refm) if *refm != m => {
+                let d = diff(refm, &m);
+                let mut c = case.clone();
+                c["seed"] = json!(seed);
+                out.push(Violation {
+                    signature: format!("hash-seed/long-chain/{}", first_id(&d)),
+                    what: format!("the findings for a definition with a 1100-variable dependency chain depend on the hash seed (seed {seed} vs seed 0)"),
+                    case: c,
+                    expected: "the same findings under every hash seed".into(),
+                    observed: d,
+                });
+                break;
+            }
+            _ => {}
+        }
+    }
+    (out, runs)
+}
+
 /// (h): projects in which a definition name is used twice (in two named files, with and
 /// without a main component in a third; in a named and an included file). Which definition is
 /// kept is the tool's choice, but it must not depend on the hash seed: same files, same
@@ -682,6 +725,16 @@ pub fn run(run: &Run) {
         run.set_extra("file_subset_runs", json!(k));
         run.violations(vs);
     }
+    // (i)
+    {
+        let n = run.tier.pick(6u64, 24u64);
+        let case = json!({"kind": "long-chain", "seeds": n});
+        run.idle();
+        let (vs, k) = check_long_chain(n, &root.join("i"), &case);
+        run.eval(k);
+        run.nontrivial(1);
+        run.violations(vs);
+    }
     // (h)
     {
         let case = json!({"kind": "duplicate-names", "seeds": seeds});
@@ -706,6 +759,7 @@ pub fn replay(case: &Value) -> Vec<Violation> {
         Some("unrelated") => check_unrelated(n, edges, &root, case).0,
         Some("pass-corpus") => check_pass_corpus(case["seeds"].as_u64().unwrap_or(64), &root, case).0,
         Some("file-subsets") => check_file_subsets(&root, case).0,
+        Some("long-chain") => check_long_chain(case["seeds"].as_u64().unwrap_or(6), &root, case).0,
         Some("duplicate-names") => check_duplicate_names(case["seeds"].as_u64().unwrap_or(16), &root, case).0,
         Some("files-seeds") => check_files_and_seeds(n, edges, case["seeds"].as_u64().unwrap_or(16), &root, case).0,
         _ => {
